@@ -15,10 +15,47 @@ from __future__ import annotations
 import re
 
 
+REGISTRY_NAMES = ("iban", "bank", "country", "bic", "bank_code")
+
+
 def _reg():
+    """The process-wide registry store as a plain {name: value} dict.  ``registry._registry`` is an internal
+    name; if a refactoring renamed or wrapped it, fall back to whatever mapping it is now, and failing that to
+    the public accessors for the registries the package declares (a library call, but the only route left)."""
+    from collections.abc import Mapping
+
     from schwifty import registry
 
-    return registry._registry
+    r = getattr(registry, "_registry", None)
+    if isinstance(r, dict):
+        return r
+    if isinstance(r, Mapping):
+        return dict(r.items())
+    for v in vars(registry).values():  # a renamed dict / store object holding the well-known names
+        if isinstance(v, Mapping) and "iban" in v and "bank" in v:
+            return dict(v.items())
+        inner = getattr(v, "__dict__", None)
+        if isinstance(inner, dict):
+            for w in inner.values():
+                if isinstance(w, Mapping) and "iban" in w and "bank" in w:
+                    return dict(w.items())
+    out = {}
+    for name in REGISTRY_NAMES:
+        try:
+            out[name] = registry.get(name)
+        except Exception:  # noqa: BLE001
+            pass
+    return out
+
+
+def _is_seq(v) -> bool:
+    return isinstance(v, (list, tuple))
+
+
+def _is_map(v) -> bool:
+    from collections.abc import Mapping
+
+    return isinstance(v, Mapping)
 
 
 def fast_view() -> tuple:
@@ -31,22 +68,27 @@ def fast_view() -> tuple:
     reg = _reg()
     parts: list = [tuple(map(repr, reg.keys()))]
     for val in reg.values():
-        if isinstance(val, list):
+        if _is_seq(val):
             try:  # keys and values of every entry (C speed; str hashes are cached)
-                content = (tuple(map(hash, map(tuple, val))), tuple(map(hash, map(tuple, map(dict.values, val)))))
-            except TypeError:  # unhashable value somewhere: fall back to text
+                content = (tuple(map(hash, map(tuple, val))),
+                           tuple(map(hash, map(tuple, map(dict.values, val) if all(type(e) is dict for e in val[:3])
+                                               else (tuple(e.values()) for e in val)))))
+            except (TypeError, AttributeError):  # unhashable value / not a mapping somewhere: fall back to text
                 content = hash(repr(val))
             parts.append((tuple(map(id, val)), tuple(map(len, val)), content))
-        elif isinstance(val, dict):
+        elif _is_map(val):
             vals = val.values()
             first = next(iter(vals), None)
-            if isinstance(first, list):
+            if _is_seq(first):
                 parts.append((tuple(val), tuple(map(len, vals)), tuple(map(id, chain.from_iterable(vals)))))
             else:
                 parts.append((tuple(val), tuple(map(id, vals)), hash(repr(val))))
         else:
             parts.append(repr(val))
-    parts.append(tuple((k, id(v)) for k, v in checksum.algorithms.items()))
+    try:
+        parts.append(tuple((k, id(v)) for k, v in checksum.algorithms.items()))
+    except Exception:  # noqa: BLE001 - an algorithm table that cannot be enumerated
+        parts.append(repr(type(checksum.algorithms)))
     return tuple(parts)
 
 
@@ -55,14 +97,14 @@ def shallow_view() -> dict:
     reg = _reg()
     out: dict = {"keys": sorted(map(repr, reg.keys()))}
     for name, val in reg.items():
-        if isinstance(val, list):
+        if _is_seq(val):
             out[repr(name)] = ("list", tuple(map(id, val)), tuple(len(e) if hasattr(e, "__len__") else -1 for e in val))
-        elif isinstance(val, dict):
+        elif _is_map(val):
             d = {}
             for k, v in val.items():
-                if isinstance(v, list):
+                if _is_seq(v):
                     d[k] = tuple(map(id, v))
-                elif isinstance(v, dict):
+                elif _is_map(v):
                     d[k] = (id(v), tuple(sorted(map(repr, v.keys()))))
                 else:
                     d[k] = repr(v)
@@ -71,7 +113,10 @@ def shallow_view() -> dict:
             out[repr(name)] = ("other", repr(val))
     from schwifty import checksum
 
-    out["algorithms"] = tuple((k, id(v), type(v).__qualname__) for k, v in sorted(checksum.algorithms.items()))
+    try:
+        out["algorithms"] = tuple((k, id(v), type(v).__qualname__) for k, v in sorted(checksum.algorithms.items()))
+    except Exception:  # noqa: BLE001
+        out["algorithms"] = ()
     return out
 
 
@@ -129,7 +174,7 @@ def _canon_leaf(v):
         return v
     if isinstance(v, (list, tuple)):
         return [_canon_leaf(x) for x in v]
-    if isinstance(v, dict):
+    if _is_map(v):
         return {str(k): _canon_leaf(x) for k, x in v.items()}
     return repr(v)
 
@@ -139,14 +184,14 @@ def deep_view() -> dict:
     reg = _reg()
     out: dict = {}
     bank = reg.get("bank")
-    pos = {id(e): i for i, e in enumerate(bank)} if isinstance(bank, list) else {}
+    pos = {id(e): i for i, e in enumerate(bank)} if _is_seq(bank) else {}
     for name, val in reg.items():
-        if isinstance(val, list):
+        if _is_seq(val):
             out[repr(name)] = [_canon_leaf(e) for e in val]
-        elif isinstance(val, dict):
+        elif _is_map(val):
             d = {}
             for k, v in val.items():
-                if isinstance(v, list) and v and all(id(e) in pos for e in v):
+                if _is_seq(v) and v and all(id(e) in pos for e in v):
                     d[repr(k)] = ["@", [pos[id(e)] for e in v]]
                 else:
                     d[repr(k)] = _canon_leaf(v)
@@ -155,7 +200,10 @@ def deep_view() -> dict:
             out[repr(name)] = _canon_leaf(val)
     from schwifty import checksum
 
-    out["algorithms"] = {k: type(v).__qualname__ for k, v in checksum.algorithms.items()}
+    try:
+        out["algorithms"] = {k: type(v).__qualname__ for k, v in checksum.algorithms.items()}
+    except Exception:  # noqa: BLE001
+        out["algorithms"] = {}
     return out
 
 
@@ -197,7 +245,11 @@ def state_fingerprint() -> tuple:
     from schwifty import checksum
 
     fp = []
-    for k, a in checksum.algorithms.items():
+    try:
+        algo_items = list(checksum.algorithms.items())
+    except Exception:  # noqa: BLE001
+        algo_items = []
+    for k, a in algo_items:
         r = getattr(a, "remainder", None)
         if r is not None:
             fp.append((k, r))
